@@ -156,9 +156,9 @@ theorem fault_rejected_units_builtin_override_gen (fd : FaultDoc) (us : Option U
 /-- non-zero offset (unsupported feature) -/
 theorem fault_rejected_units_offset_gen (fd : FaultDoc) (us : Option Unit) (d : Units.UDef) (hd : d ∈ fd.udefs) (hb : d.base = false)
     (e : Units.UnitElem) (he : e ∈ d.elems) (o : String) (ho : e.offset = some o) (q : Rat)
-    (hq : Decimal.parse o = some q) (hne : q ≠ 0) :
+    (hq : Decimal.parse o = some q) (hne : q ≠ 0) (hden : q.den < 2 ^ 1075) :
     ∃ e, genParse fd us = .error e :=
-  rejected_gen us (Cellml.Props.C17.fault_rejected_units_offset fd d hd hb e he o ho q hq hne)
+  rejected_gen us (Cellml.Props.C17.fault_rejected_units_offset fd d hd hb e he o ho q hq hne hden)
 
 /-- dangling reference: a `<unit>` refers to a name that is neither built in nor defined -/
 theorem fault_rejected_units_dangling_gen (fd : FaultDoc) (us : Option Unit) (d : Units.UDef) (hd : d ∈ fd.udefs) (hb : d.base = false)
